@@ -9,8 +9,8 @@ Local Open Scope N_scope.
 Lemma acquire_refuse b cn name flags :
   match acquire_service b cn name flags with
   | RErr e => e = (if requestable name then ELimitsExceeded else EInvalidArgs) /\
-              (requestable name = true -> b_limit b <= nlen (c_owned cn))
-  | _ => requestable name = true /\ nlen (c_owned cn) < b_limit b
+              (requestable name = true -> b_limit b <= nlen (c_owned cn) /\ holds b (c_id cn) name = false)
+  | _ => requestable name = true /\ (nlen (c_owned cn) < b_limit b \/ holds b (c_id cn) name = true)
   end.
 Proof.
   pose proof (name_refused_spec name) as Hs. unfold name_refused in Hs.
@@ -22,11 +22,23 @@ Proof.
   destruct (bytes_eqb name DBUS_SERVICE_DBUS_str) eqn:E3.
   { simpl in Hs. symmetry in Hs. apply negb_true_iff in Hs. rewrite Hs. split; [reflexivity | discriminate]. }
   simpl in Hs. symmetry in Hs. apply negb_false_iff in Hs. rewrite Hs.
-  destruct (b_limit b <=? nlen (c_owned cn)) eqn:El.
-  { apply N.leb_le in El. split; [reflexivity | intros _; exact El]. }
-  apply N.leb_gt in El.
-  match goal with |- match ?X with _ => _ end => destruct X eqn:HX end; try (split; [reflexivity | exact El]).
+  change (match lookup (b_services b) (KW name) with
+          | Some q => match find_owner q (c_id cn) with Some _ => true | None => false end
+          | None => false end) with (holds b (c_id cn) name).
+  destruct ((b_limit b <=? nlen (c_owned cn)) && negb (holds b (c_id cn) name)) eqn:El.
+  { apply andb_true_iff in El. destruct El as [A B]. apply N.leb_le in A. apply negb_true_iff in B. split; [reflexivity | intros _; split; assumption]. }
+  assert (Hok : nlen (c_owned cn) < b_limit b \/ holds b (c_id cn) name = true).
+  { apply andb_false_iff in El. destruct El as [A|B]; [left; apply N.leb_gt; exact A | right; apply negb_false_iff; exact B]. }
+  match goal with |- match ?X with _ => _ end => destruct X eqn:HX end; try (split; [reflexivity | exact Hok]).
   exfalso. break_hyp HX; discriminate.
+Qed.
+
+Lemma holds_spec L s c name : holds (reg L s) c name = holds_name s c name.
+Proof.
+  unfold holds, holds_name. simpl. destruct (lookup (s_services s) (KW name)) as [q|]; [|reflexivity].
+  rewrite in_queue_queued. destruct (find_owner q c) eqn:E.
+  - destruct (queued c q) eqn:Q; [reflexivity|]. apply find_owner_none in Q. rewrite Q in E. discriminate.
+  - apply find_owner_none in E. rewrite E. reflexivity.
 Qed.
 
 Lemma refusal_single c m : refusal [(c, m)] = match m with OErr LLimitsExceeded => true | ONotAccepted => true | _ => false end.
@@ -41,7 +53,7 @@ Qed.
 Lemma request_refusal L s c name flags :
   refusal (snd (lstep L s (RequestName c name flags))) =
   match find_conn (s_conns s) c with
-  | Some cn => c_active cn && requestable name && (max_names_per_connection L <=? nlen (c_owned cn))
+  | Some cn => c_active cn && requestable name && (max_names_per_connection L <=? nlen (c_owned cn)) && negb (holds_name s c name)
   | None => false
   end.
 Proof.
@@ -50,16 +62,21 @@ Proof.
   destruct (find_conn (s_conns s) c) as [cn|] eqn:Hf.
   - destruct (c_active cn) eqn:Ha; simpl in Es.
     + pose proof (acquire_refuse (reg L s) cn name flags) as Hr.
+      assert (Hcid : c_id cn = c) by (apply find_conn_in in Hf; tauto). rewrite Hcid, holds_spec in Hr.
+      assert (Hfalse : requestable name = true -> nlen (c_owned cn) < max_names_per_connection L \/ holds_name s c name = true ->
+                       (max_names_per_connection L <=? nlen (c_owned cn)) && negb (holds_name s c name) = false).
+      { intros _ [A|B]; [replace (max_names_per_connection L <=? nlen (c_owned cn)) with false by (symmetry; apply N.leb_gt; exact A); reflexivity
+                        | rewrite B; apply andb_false_r]. }
       destruct (acquire_service (reg L s) cn name flags) eqn:Eacq.
       * inversion Es; subst. simpl. destruct Hr as [-> Hl]. destruct (requestable name) eqn:Erq; simpl.
-        -- specialize (Hl eq_refl). simpl in Hl. symmetry. apply N.leb_le. exact Hl.
+        -- destruct (Hl eq_refl) as [A B]. simpl in A. rewrite B. replace (max_names_per_connection L <=? nlen (c_owned cn)) with true by (symmetry; apply N.leb_le; exact A). reflexivity.
         -- reflexivity.
-      * destruct Hr as [Hrq Hl]. simpl in Hl. rewrite Hrq. simpl. replace (max_names_per_connection L <=? nlen (c_owned cn)) with false by (symmetry; apply N.leb_gt; exact Hl).
+      * destruct Hr as [Hrq Hl]. simpl in Hl. rewrite Hrq. simpl. rewrite (Hfalse Hrq Hl).
         inversion Es; subst b' ro. clear Es.
         destruct (existsb is_fault _); [reflexivity|]. cbn [snd].
         apply no_error_no_refusal. intros o Ho. eapply deliver_not_error; [|exact Ho].
         apply emits_ok_app; [apply signals_emits_ok; eapply acquire_signals; eauto|]. apply emits_ok_cons; [reflexivity|]. intros x [].
-      * destruct Hr as [Hrq Hl]. simpl in Hl. rewrite Hrq. simpl. replace (max_names_per_connection L <=? nlen (c_owned cn)) with false by (symmetry; apply N.leb_gt; exact Hl).
+      * destruct Hr as [Hrq Hl]. simpl in Hl. rewrite Hrq. simpl. rewrite (Hfalse Hrq Hl).
         inversion Es; subst. reflexivity.
     + inversion Es; subst. reflexivity.
   - inversion Es; subst. reflexivity.
@@ -158,7 +175,8 @@ Proof.
   - rewrite request_refusal. cbn [demand]. unfold registered.
     destruct (find_conn (s_conns s) c) as [cn|] eqn:Hf; [|reflexivity].
     destruct (c_active cn); simpl; [|reflexivity]. destruct (requestable name); simpl; [|reflexivity].
-    apply find_conn_in in Hf. destruct Hf as [Hin <-]. rewrite (linv_names_exact L s cn I Hin). reflexivity.
+    apply find_conn_in in Hf. destruct Hf as [Hin <-]. rewrite (linv_names_exact L s cn I Hin).
+    destruct (holds_name s (c_id cn) name); simpl; [apply andb_false_r | apply andb_true_r].
   - rewrite release_refusal. reflexivity.
   - rewrite addmatch_refusal. cbn [demand]. unfold registered.
     destruct (find_conn (s_conns s) c) as [cn|] eqn:Hf; [|reflexivity].
